@@ -81,7 +81,7 @@ CLAIMED = {
              "a contour of the same length every point of which is within the tolerance; with the DEFAULT methods the only untested path is the raw "
              "'integrate' fallback (identified by theorem, monitored); skip_endpoints keeps exactly the two end points. The PrimFloat instance of the same "
              "model is run BIT FOR BIT against the real refinePointNewton / refinePoint / getRefined on polynomial flux functions (converging, touching "
-             "= 6-16 iterations around the limit, diverging, early-exit cases; scripted integrate / line outcomes). A member with different inboard / outboard SOL limits (udn_solin) is part of the residual oracle.",
+             "= 6-16 iterations around the limit, diverging, early-exit cases; scripted integrate / line outcomes). A member with different inboard / outboard SOL limits (udn_solin) is part of the residual oracle. FineContour.refine (same logic on the positions array) is run bit for bit against get_refined as well.",
         note="Trusted: Coq kernel (+ Reals axioms for the real-number instance of the refinement theorems); hand models + fingerprints + bit-exact correspondence; "
              "solve_ivp ('integrate') and brentq ('line') are parameters of the model: contracts monitored on real grids (psi residual of every point), not proved; "
              "convergence of the iteration is not claimed; corpus = analytic Gaussian families + circular (no TORPEX X-point case: needs sympy).",
